@@ -195,6 +195,47 @@ example :
       = .error (.config "deprecated" "ERROR [config-001] Rule architecture_002 has been deprecated.") := by
   rfl
 
+/-! ### severity names that do not exist (after the repo repair of the severity look-up in rule.py) -/
+
+/-- one look-up (`get_configured_severity`): a name no severity of the list has is a ConfigurationError —
+    the sibling of `unknown_rule_error`.  Before the repair the rule's severity became None here and the run
+    ended in an AttributeError traceback when the rule list read `severity.type` -/
+theorem unknown_severity_error (sl : List Sev) (r : RuleObj) (v : Val) (h : getSeverityNamed sl v = none) :
+    setSeverity (some sl) r v = .error (.config "unknownSeverity" (sevNameStr v)) := by
+  simp [setSeverity, h]
+
+/-- … and a look-up that returns never leaves the rule without a severity -/
+theorem configured_severity_defined (sl : List Sev) (r r' : RuleObj) (v : Val)
+    (h : setSeverity (some sl) r v = .ok r') : ∃ s, r'.severity = some s ∧ getSeverityNamed sl v = some s := by
+  unfold setSeverity at h
+  cases hg : getSeverityNamed sl v with
+  | none => simp [hg] at h
+  | some s =>
+    simp only [hg, Except.ok.injEq] at h
+    subst h
+    exact ⟨s, rfl, rfl⟩
+
+/-- the rule's own entry `severity: <a name no severity has>`: `Rule.configure` does not return, the outcome
+    is that configuration error, whatever else the entry holds behind it -/
+theorem unknown_severity_rule_entry_error (sl : List Sev) (r : RuleObj) (v : Val) (rest : Attrs)
+    (hd : r.deprecated = false) (h1 : r.id ≠ "global") (h2 : r.id ≠ "group") (h : getSeverityNamed sl v = none) :
+    ruleConfigure (some sl) [(r.id, .attrs (("severity", v) :: rest))] r =
+      .error (.config "unknownSeverity" (sevNameStr v)) := by
+  unfold ruleConfigure
+  simp [hd, configureGlobal, configureGroup, configureRuleAttrs, dget, h1, h2, bind, Except.bind, pure, Except.pure,
+    List.foldlM_cons, assignRule, assignDict, setSeverity, h, Except.map]
+
+/-- the reproduction of the former finding `severity.create_list.get_severity_named / traceback` on the model:
+    `architecture_013: {severity: Critical}` without a `severity` section -/
+example :
+    ruleListConfigure (some builtinSevs) (some [("architecture_013", .attrs [("severity", .str "Critical")])]) (some false) [wRule]
+      = .error (.config "unknownSeverity" "Critical") := by
+  rfl
+
+/-- non-vacuity: a built-in name is found -/
+example : ∃ r', setSeverity (some builtinSevs) wRule (.str "Warning") = .ok r' ∧ r'.severity = some ⟨"Warning", "warning"⟩ :=
+  ⟨_, rfl, rfl⟩
+
 /-! ### the effective value is the one the engine acts on -/
 
 /-- a rule whose effective `disable` is true is never invoked by a fix run, whatever its semantics -/
